@@ -33,7 +33,7 @@ FULL = [f"{x}.{y}.{z}" for x in (2, 3, 4) for y in range(0, 15) for z in (0, 1, 
 META = {
     "rule": "(a) every atom: 2 variables x 9 literals x 7 operators x 2 operand orders + wildcards + 7 in/not-in lists, each "
     "on 315 interpreters; (b) from_specifier for 2 variable names x every simple specifier over 9 literals (single comparison, "
-    "~=, ==X.*, !=V, !=X.*) and the two-clause ranges that render simple, on the same interpreters (exhaustive). Non-trivial = "
+    "~=, ==X.*, !=V, !=X.*), the two-clause ranges that render simple and 5 two-bound shapes over all pairs of 15 Python-like versions, on the same interpreters (exhaustive). Non-trivial = "
     "atom/specifier whose truth table over the interpreters is not constant; distinct by text.",
     "assumptions": [
         "interpreters are final X.Y.Z, python_version = X.Y",
@@ -71,6 +71,16 @@ def spec_cases():
     for v in ["3", "3.8", "3.10", "2.7", "3.0"]:
         specs += ["==" + v + ".*", "!=" + v + ".*"]
     specs += [">=3.8,<4", ">=3.8,<3.9", ">=3.8.0,<3.9.0", ">=3.8.1,<3.9", "<3.8||>=3.9", "<3.8||>3.8", "<3.8.0||>=3.9.0", ">=3.8,<3.10", ">=3,<4", ">=3.8.1,<3.8.2", "<3||>=4", "", "<empty>", ">=3.8,<3.8"]
+    # two-bound shapes over Python-like versions written with different numbers of segments: what is_simple()
+    # and the ~= / ==X.* / !=X.* renderings (through which from_specifier builds its atom) inspect
+    pool = ["3", "3.0", "3.7", "3.7.0", "3.8", "3.8.0", "3.8.1", "3.9", "3.9.0", "3.9.1", "3.10", "3.10.0", "4", "4.0", "4.1"]
+    import itertools
+
+    from packaging.version import Version
+
+    for l, r in itertools.combinations(pool, 2):
+        if Version(l) < Version(r):
+            specs += [f"<{l}||>={r}", f"<={l}||>{r}", f"<{l}||>{r}", f">={l},<{r}", f">{l},<={r}"]
     for name in ("python_version", "python_full_version"):
         for s in specs:
             yield {"name": name, "spec": s}
